@@ -404,6 +404,20 @@ def plan_c04(tier, seed, rng):
             cases.append((A, B, fa, fb, fr, op))
         scripts.append(('rnd_%03d' % n, c04_script(rng, sizes, rel, F, cases)))
         n += 1
+    # structured relations over non-uniform shapes: per-level products of identity /
+    # unconstrained / arbitrary levels (diagrams that skip levels by identity patterns or
+    # redundancy), where a loop bound taken from the wrong level shows
+    for i in range(12 if tier == 'thorough' else 4):
+        sizes = rng.choice([[3, 2], [2, 3], [4, 2], [2, 4], [2, 2, 2], [3, 2, 2]])
+        cases = []
+        for _ in range(40 if tier == 'thorough' else 24):
+            A = struct_relation(rng, sizes)
+            B = struct_relation(rng, sizes) if rng.random() < 0.7 else rand_relation(rng, sizes)
+            op = rng.choice(ops + ['COMPLEMENT', 'COMPLEMENT'])
+            fa, fb, fr = rng.randrange(len(relF)), rng.randrange(len(relF)), rng.randrange(len(relF))
+            cases.append((A, B, fa, fb, fr, op))
+        scripts.append(('str_%03d' % n, c04_script(rng, sizes, True, relF, cases)))
+        n += 1
     # cross product: all pairs of sets over <2,2> (thorough) / sampled, into each relation rule
     for i in range(3 if tier == 'thorough' else 1):
         cases = [(A, B, rng.randrange(3), rng.randrange(3), rng.randrange(3), 'CROSS') for A in fn4 for B in fn4]
@@ -415,7 +429,7 @@ def plan_c04(tier, seed, rng):
         rule='all 16x16 pairs of boolean sets over <2,2> and of boolean relations over <2>, for UNION / INTERSECTION / DIFFERENCE (+ COMPLEMENT of all 16), '
              'with operand/result forests drawn from {fully, second fully, quasi} (sets) and {identity, second identity, fully, quasi} (relations) - '
              'a seeded subset of the forest triples in quick, all 27 / 64 triples in thorough; alternately with a warm compute table and with all tables '
-             'cleared after every call; CROSS for all pairs over <2,2>; plus seeded random pairs on shapes up to 4 variables; operands are re-evaluated '
+             'cleared after every call; CROSS for all pairs over <2,2>; plus seeded random pairs on shapes up to 4 variables and structured relations (per-level products of identity / unconstrained / arbitrary levels) over <3,2>, <2,3>, <4,2>, <2,4>, <2,2,2>, <3,2,2>; operands are re-evaluated '
              'after every call (tag HELD); non-trivial = result table not constant',
         exhaustive=(tier == 'thorough'),
     )
@@ -610,6 +624,33 @@ def plan_c05(tier, seed, rng):
             rl = (rng.choice(rules), rng.choice(rules), rng.choice(rules))
             scripts.append(('r%03d' % n, c05_script(rng, sizes, kind, rl, cases)))
             n += 1
+    # range queries on functions that *share nodes*: g over the lower level (all values of
+    # one sign), f = g on the diagonal of the upper level and 0 elsewhere (identity-reduced:
+    # the shared node is reached once through skipped levels, once not); both query orders
+    for kind in ['mti_r', 'mtr_r']:
+        for rep in range(6 if tier == 'thorough' else 2):
+            sizes = rng.choice([[2, 2], [3, 2], [2, 3]])
+            s1, s2 = sizes
+            pos = [v for v in (ARITH_PAL[kind]) if v > 0]
+            neg = [v for v in (ARITH_PAL[kind]) if v < 0]
+            cases = []
+            for sign in (pos, neg, pos):
+                low = [[rng.choice(sign) for _ in range(s1)] for _ in range(s1)]     # low[from][to]
+                f = [0] * (s1 * s1 * s2 * s2)
+                g = [0] * (s1 * s1 * s2 * s2)
+                for a1 in range(s1):
+                    for b1 in range(s1):
+                        for a2 in range(s2):
+                            for b2 in range(s2):
+                                r = rel_rank([a1, a2], [b1, b2], sizes)
+                                g[r] = low[a1][b1]
+                                f[r] = low[a1][b1] if a2 == b2 else 0
+                pair = [(f, None, 'RNG'), (g, None, 'RNG')]
+                if rng.random() < 0.5:
+                    pair.reverse()
+                cases += pair + [(f, None, 'RNG')]
+            scripts.append(('q%03d' % n, c05_script(rng, sizes, kind, ('I', rng.choice('IFQ'), rng.choice('IFQ')), cases)))
+            n += 1
     return dict(
         scripts=scripts, validators=[API], tags={'C05', 'HELD'},
         rule='per forest kind (MT integer / MT real / EV+ / EV* ; sets and relations): every pair of functions over <2> with values from a '
@@ -617,7 +658,7 @@ def plan_c05(tier, seed, rng):
              'arithmetic operation the factory builds for the kind and the six comparisons (result in a boolean, integer or real MT forest), '
              'operand/result forests = three distinct forests with reduction rules drawn from the kind\'s rules (all rule triples in thorough); '
              'plus seeded random functions on shapes up to 3 variables with structured operands (x op x, constants, zero/one/infinity), '
-             'user-defined unary maps, DIST_INC, MAX_RANGE/MIN_RANGE; operands re-read after every call; non-trivial = result not constant, or an error outcome',
+             'user-defined unary maps, DIST_INC, MAX_RANGE/MIN_RANGE (also on pairs of functions that share nodes reached once through skipped identity levels and once directly, in both query orders); operands re-read after every call; non-trivial = result not constant, or an error outcome',
         exhaustive=False,
     )
 
@@ -1037,6 +1078,46 @@ def plan_c09(tier, seed, rng):
 REACH = ['REACH_FS_F', 'REACH_FS_B', 'REACH_NOFS_F', 'REACH_NOFS_B', 'REACH_SAT_F', 'REACH_SAT_B']
 
 
+def c08_pool_script(rng, sizes, sk, srule, rr, ncases):
+    S = Script()
+    d = S.dom(sizes)
+    fa = S.forest(d, sk, srule)
+    fm = S.forest(d, 'mtb_r', rr)
+    a, m = S.new(fa), S.new(fm)
+    res = [S.new(fa) for _ in range(6)]
+    ns = points_of(sizes, False)
+    pool = [rand_event(rng, sizes) for _ in range(5)]
+    # make sure some events are topped below the top level and some at it
+    pool[0] = rand_event(rng, sizes, top=len(sizes) - 1)
+    pool[1] = rand_event(rng, sizes, top=len(sizes) - 2)
+    ops = ['REACH_SAT_F', 'REACH_SAT_F', 'REACH_SAT_B', 'REACH_NOFS_F'] if sk == 'mtb_s' else ['REACH_SAT_F', 'REACH_SAT_F', 'REACH_SAT_B']
+    prev = None
+    for c in range(ncases):
+        if c % 3 == 0:
+            T = rand_table(rng, sk, ns) if sk == 'mtb_s' else dist_table(rng, sk, ns)
+            table_coll(S, a, fa, sk, T, sizes)
+        if prev is not None and rng.random() < 0.6:
+            # differ from the previous relation by exactly one event
+            sub = set(prev)
+            e = rng.randrange(len(pool))
+            sub.symmetric_difference_update({e})
+            if not sub:
+                sub = {e}
+        else:
+            sub = set(x for x in range(len(pool)) if rng.random() < 0.5) or {0}
+        prev = sub
+        R = [0] * (ns * ns)
+        for e in sub:
+            for x, v in enumerate(pool[e]):
+                if v:
+                    R[x] = 1
+        table_coll(S, m, fm, 'mtb_r', R, sizes)
+        S.add('bin %s %d %d %d' % (rng.choice(ops), res[c % len(res)], a, m))
+        S.add('obs %d %d' % (a, m))
+    S.add('obs')
+    return S.text()
+
+
 @plan('C08')
 def plan_c08(tier, seed, rng):
     scripts = []
@@ -1068,6 +1149,15 @@ def plan_c08(tier, seed, rng):
             # saturation operation is reused across calls)
             scripts.append(('q%03d' % n, rel_script(rng, sizes, sk, rules, 'mtb_r', rr, cases, clear=False, same=same)))
             n += 1
+    # relations assembled from a fixed pool of events: consecutive calls see relations that
+    # share sub-relations (and differ in the events topped at one level), on the same
+    # initial set, with the earlier results still held - the situation in which an entry
+    # of the cross-call caches is found again
+    for rr in ['I', 'I', 'F'] if tier != 'thorough' else ['I', 'I', 'I', 'I', 'F', 'Q']:
+        for sk in ['mtb_s', rng.choice(['evp_s', 'mti_s'])]:
+            sizes = rng.choice([[3, 3, 3], [2, 3, 2], [2, 2, 2], [3, 2, 3]])
+            scripts.append(('p%03d' % n, c08_pool_script(rng, sizes, sk, 'F' if sk == 'mti_s' else rng.choice('FQ'), rr, 18 if tier == 'thorough' else 9)))
+            n += 1
     return dict(
         scripts=scripts, validators=[API], tags={'C08', 'HELD'},
         mc=[('SaturationMC.tla', 'SaturationMC.cfg', {})] + ([('SaturationMC.tla', 'SaturationMC_bug.cfg', {'expect_violation': True})] if tier == 'thorough' else []),
@@ -1076,7 +1166,7 @@ def plan_c08(tier, seed, rng):
              'implementation: REACHABLE_TRAD_FS / TRAD_NOFS / SATUR, forward and backward: every initial set x every relation over <2>; seeded (set, relation) pairs over '
              '<3>, <2,2>, <3,2>, <2,3>, <2,2,2> with relation families sparse / dense / self-loops / dead ends; boolean sets, MT-integer distance and EV+ '
              'distance functions (NOFS and SATUR); relation forests identity-, fully- and quasi-reduced; calls are issued in sequence in the same forests '
-             'with nothing cleared in between; all algorithms on one (set, relation) write into the same result forest so that their results are compared '
+             'with nothing cleared in between; sequences over <3,3,3>, <2,3,2>, <2,2,2>, <3,2,3> whose relations are unions of subsets of one pool of five events (consecutive relations differ by one event, same initial set, earlier results still held); all algorithms on one (set, relation) write into the same result forest so that their results are compared '
              'for identity (C01 tag) as well as with the least fixed point computed by TLC; non-trivial = result not constant',
         exhaustive=False,
     )
@@ -1391,9 +1481,68 @@ def hist_shapes(rng, rel):
     return [2] * rng.randint(5, 6)
 
 
+def var_struct_script(rng, kind, rule):
+    """functions of a single (primed or unprimed) variable built by createEdgeForVar,
+    next to the same function built from minterms, in a forest with the given rule;
+    every pair is observed (identical edges: C01) and the forest is snapshot
+    (reduction rule at every node: C02)"""
+    sr, rngt, lab = KINDS[kind]
+    rel = sr == 'R'
+    sizes = rng.choice([[3, 2, 4], [2, 3, 2], [2, 3]]) if not rel else rng.choice([[3, 2, 2], [2, 3], [3, 2]])
+    S = Script()
+    d = S.dom(sizes)
+    f = S.forest(d, kind, rule, sto=rng.choice(STO))
+    K = len(sizes)
+    pal = [v for v in (COPY_PAL.get(kind) or [1]) if v != INF]
+    dflt = gen.default_of(kind)
+    npts = points_of(sizes, rel)
+    for vh in range(1, K + 1):
+        for pr in ([0, 1] if rel else [0]):
+            vs = sizes[vh - 1]
+            for style in ('one', 'all', 'rand'):
+                if rngt == 'B':
+                    nz = [1]
+                else:
+                    nz = [v for v in pal if v != dflt] or [1]
+                if style == 'one':
+                    terms = [dflt if lab != 'EP' else 0] * vs
+                    terms = [0] * vs
+                    terms[rng.randrange(vs)] = rng.choice(nz)
+                elif style == 'all':
+                    terms = [rng.choice(nz) for _ in range(vs)]
+                else:
+                    terms = [rng.choice(nz + [0]) for _ in range(vs)]
+                e, ref = S.new(f), S.new(f)
+                S.add('var %d %d %d %d %d %s' % (e, f, vh, pr, vs, ' '.join(map(str, terms))))
+                T = []
+                for r in range(npts):
+                    a = rank_to_assignment(r, sizes, rel)
+                    dig = a[K + vh - 1] if pr else a[vh - 1]
+                    T.append(terms[dig])
+                if lab in ('EP', 'IX'):
+                    S.coll(ref, f, 'MIN', INF, [(v, rank_to_assignment(r, sizes, rel)) for r, v in enumerate(T)])
+                else:
+                    table_coll(S, ref, f, kind, T, sizes)
+                S.add('obs %d %d' % (e, ref))
+    S.add('snap %d' % f)
+    return S.text()
+
+
+def var_struct_scripts(rng, tier):
+    out = []
+    n = 0
+    for kind in ['mtb_r', 'mti_r', 'mtb_s', 'mti_s', 'evp_s', 'evp_r', 'mtr_r']:
+        for rule in gen.rules_of(kind):
+            if tier != 'thorough' and kind in ('evp_r', 'mtr_r', 'evp_s') and rng.random() < 0.5:
+                continue
+            out.append(('v%03d_%s%s' % (n, kind, rule), var_struct_script(rng, kind, rule)))
+            n += 1
+    return out
+
+
 @plan('C02')
 def plan_c02(tier, seed, rng):
-    scripts = []
+    scripts = var_struct_scripts(rng, tier)
     reps = 40 if tier == 'thorough' else 10
     for i in range(reps):
         rel = i % 2 == 1
@@ -1410,8 +1559,9 @@ def plan_c02(tier, seed, rng):
             continue
         scripts.append(('h%03d' % i, history_script(rng, sizes, forests, 90 if tier == 'thorough' else 60, snap_every=10)))
     return dict(
-        scripts=scripts, validators=[API, STORE], tags={'C02'}, lifecycle=False,
-        rule='seeded random histories (constructions from tables and minterm collections, set algebra / arithmetic within and across forests of one kind, '
+        scripts=scripts, validators=[API, STORE], tags={'C02', 'C01'}, lifecycle=False,
+        rule='per forest kind x rule: functions of every single variable (primed and unprimed; one / all / some non-zero terms) built by createEdgeForVar next to the same function built from minterms, observed for identity and snapshot; '
+             'seeded random histories (constructions from tables and minterm collections, set algebra / arithmetic within and across forests of one kind, '
              'COPY across kinds, edge assignment / copy / release, clearing and stale-removal of compute tables) over 1..3 forests per execution with random '
              'kind (MT boolean/integer/real, EV+, EV*; sets and relations), reduction rule, storage, memory manager and deletion policy; a snapshot of every '
              'live node (full / sparse / either unpacking, hashes, unique-table look-ups, singleton query, counts) of every forest every 10 calls and at the end, '
@@ -1660,6 +1810,8 @@ def plan_c01(tier, seed, rng):
                 sizes = [rng.choice([2, 3]), rng.choice([2, 3, 4])] if kind == 'evp_s' else [rng.choice([2, 3])]
                 scripts.append(('w%03d' % n, c01_wide_script(rng, sizes, kind, rule)))
                 n += 1
+    # createEdgeForVar next to the same function from minterms (every variable, primed too)
+    scripts += [('var_' + nm, text) for nm, text in var_struct_scripts(rng, tier)]
     # spec -> code: behaviours generated by TLC from the store model, with the
     # model's prediction of every edge's function and node count after each call
     gwork = os.path.join(VERIF, 'work', 'C01-gen-%s' % tier)
@@ -1759,6 +1911,10 @@ def c01_unode_script(rng, kind):
                 low[0] = 1
         else:
             low = [rng.choice([v for v in pal if v != INF] + [gen.default_of(kind)]) for _ in range(sizes[0])]
+            if all(v == gen.default_of(kind) for v in low):
+                # a sparse unpacked node lists its *non-transparent* edges only (unpacked_node.h:
+                # "which nonzero edge"): a child that is the transparent function is not a legal entry
+                low[rng.randrange(sizes[0])] = rng.choice([v for v in pal if v not in (INF, gen.default_of(kind))])
         full = [low[r % sizes[0]] for r in range(points_of(sizes, False))]
         ktab.append(full)
         table_coll(S, c, f, kind, full, sizes)
